@@ -38,7 +38,13 @@ pub fn positions<'a>(v: &IxView<'a>, acct: &MarginfiAccount, bank_post: bool) ->
         };
         let mut oracles = vec![];
         for k in oracle_keys(&bank) {
-            match v.ev.pre_of(&k) {
+            // venue accounts (reserve, spot market) are written by the venue inside the same
+            // instruction; the health check that follows reads them as they are afterwards
+            let snap = match (bank_post, v.ev.post_of(&k)) {
+                (true, Some(p)) if p.is_writable => Some(p),
+                _ => v.ev.pre_of(&k),
+            };
+            match snap {
                 Some(s) => oracles.push(OracleIn { key: k, owner: s.owner, data: &s.data[..] }),
                 None => oracles.push(OracleIn { key: k, owner: Pubkey::default(), data: &[] }),
             }
@@ -77,7 +83,7 @@ fn feat(h: &RefHealth) -> (usize, usize, bool, bool, bool, bool) {
 impl Mon {
     pub fn risk_on_ix(&mut self, w: &World, v: &IxView, info: &IxInfo) {
         match info.kind {
-            Kind::Borrow | Kind::Withdraw => self.c04_success(w, v, info),
+            Kind::Borrow | Kind::Withdraw | Kind::KaminoWithdraw => self.c04_success(w, v, info),
             Kind::EndFlashloan => self.c11_end(w, v, info),
             Kind::Liquidate => self.c05(w, v, info),
             Kind::HandleBankruptcy => self.c07(w, v, info),
@@ -161,7 +167,7 @@ impl Mon {
             return;
         }
         let kind = Kind::of(&ev.data);
-        if !matches!(kind, Kind::Borrow | Kind::Withdraw | Kind::EndFlashloan) {
+        if !matches!(kind, Kind::Borrow | Kind::Withdraw | Kind::KaminoWithdraw | Kind::EndFlashloan) {
             return;
         }
         let v = IxView { ev, cur: &w.shadow };
